@@ -389,7 +389,7 @@ def gen_holes_case(rng):
     cells = cc.double(cells, rng.choice([2, 3]))
     loops = [cc.loop_variant(rng, cc.outline(cells), allow_collinear=False)[0]]
     holes = []
-    for _ in range(rng.randint(1, 3)):
+    for _ in range(rng.choice([1, 2, 2, 3, 3, 4])):
         h = cc.rect_hole_in(rng, cells)
         if h and not any((i + a, j + b) in hh for hh in holes for (i, j) in h
                          for a in (-1, 0, 1) for b in (-1, 0, 1)):
@@ -1403,7 +1403,7 @@ def budget(ctx):
     if thorough:
         return {'bool': 2500, 'split': 1500, 'holes': 500, 'general': 1200, 'area': 400,
                 'secs': 600}
-    return {'bool': 150, 'split': 90, 'holes': 25, 'general': 70, 'area': 25, 'secs': 38}
+    return {'bool': 150, 'split': 90, 'holes': 160, 'general': 70, 'area': 25, 'secs': 38}
 
 
 def run(ctx):
@@ -1428,11 +1428,12 @@ def run(ctx):
     # the thorough tier explores): the failing members of that stream are a finite, listed set
     # and any other failing input - e.g. after a change of the library - is reported.
     rng_split = random.Random('c09/lattice-split/fixed-stream')
+    rng_holes = random.Random('c09/lattice-holes/fixed-stream')   # same for split_through_holes
     for kind in plan:
         if time.time() > t0 + 0.45 * (stop - t0):
             break
         case = {'bool': gen_bool_case, 'split': gen_split_case, 'holes': gen_holes_case}[kind](
-            rng_split if kind == 'split' else rng)
+            rng_split if kind == 'split' else rng_holes if kind == 'holes' else rng)
         if case is None:
             continue
         req, c = run_lattice_case(case)
